@@ -34,6 +34,7 @@ def run(ctx):
     ctx.guard(rule_d, ctx, ix)
     ctx.guard(rule_e, ctx, ix)
     ctx.guard(rule_f, ctx, ix)
+    ctx.guard(rule_g, ctx, ix)
 
 
 def _guard_update_external(src):
@@ -565,3 +566,38 @@ def run_thorough(ctx):
         n = common.check_contextmanager(ctx, R, m, node, construct)
         if not n:
             ctx.ob(R, construct, 'nothing stored before the yield needs restoring', True, nontrivial=False)
+
+
+def rule_g(ctx, ix):
+    """The link manager learns that an attribute is gone from the message remove_component broadcasts (C03.b checks the
+    subscription).  An attribute that leaves `_components` anywhere else leaves its links registered: other datasets keep reading it."""
+    from ..util import key_removals
+    R = 'C03.g'
+    ctx.describe(R, 'attributes leave a dataset only through remove_component, whose message the link manager listens to', floor=1)
+    data = ix.cls('glue.core.data.Data')
+    rc = data.resolve_func('remove_component')
+    if rc is None:
+        raise AnalysisError('Data.remove_component vanished')
+    says = any(call_name(c) == 'DataRemoveComponentMessage' for c in calls_in(rc.node))
+    ctx.ob(R, rc.construct, 'remove_component announces the removal with DataRemoveComponentMessage', says,
+           detail='Data.remove_component no longer broadcasts DataRemoveComponentMessage: the link manager keeps the links of the '
+                  'removed attribute', where=rc.where)
+    n = 0
+    mod = ix.module('glue.core.data')
+    for cls in [c for c in ix.classes.values() if c.module is mod]:
+        for name, mem in sorted(cls.members.items()):
+            for g in (mem.func, mem.fget, mem.fset):
+                if g is None or g.cls is not cls:
+                    continue
+                for node_, key_ in key_removals(g.node, '_components'):
+                    n += 1
+                    from .C17 import self_announcing
+                    ok = g.name == 'remove_component' or self_announcing(g.node, node_, '_components')
+                    ctx.ob(R, '%s `%s`' % (g.construct, norm(node_) if isinstance(node_, ast.stmt) else unparse(node_)),
+                           'the attribute is dropped by remove_component itself', ok,
+                           detail='%s drops an attribute from the dataset with `%s` without going through remove_component: no '
+                                  'DataRemoveComponentMessage is sent for it, the link manager keeps every link that touches it, and other '
+                                  'datasets can still read (and select on) an attribute that no longer exists'
+                                  % (g.construct, unparse(node_)[:80]), where=where(g, node_))
+    if n < 1:
+        raise AnalysisError('C03.g: no removal from _components found in glue.core.data')
